@@ -100,6 +100,17 @@ Theorem decode_consumed_le :
 Proof. exact (conj decode_pollard_consumed_proof decode_map_consumed_proof). Qed.
 Print Assumptions decode_consumed_le.
 
+(** Bytes after a valid stream are not touched: same image, same count. *)
+Theorem roundtrip_trailing :
+  (forall (img : pimage) (rest : list byte),
+     wf_pimage img ->
+     decode_pollard (encode_pollard img ++ rest) = Ok (img, length (encode_pollard img))) /\
+  (forall (img : mimage) (rest : list byte),
+     wf_mimage img ->
+     decode_map (encode_map img ++ rest) = Ok (img, length (encode_map img))).
+Proof. exact (conj pollard_roundtrip_trailing_proof map_roundtrip_trailing_proof). Qed.
+Print Assumptions roundtrip_trailing.
+
 (** T1-T4 combined, as the property reads: whatever the reader's chunking, the written bytes
     restore to the original and every strict prefix is an error. *)
 Theorem pollard_any_reader :
